@@ -202,7 +202,7 @@ func checkC04(c *FileCase) *Violation {
 	src := fileCaseSrc(c)
 	hoisted := 0
 	for _, opt := range []bool{false, true} {
-		res := Compile(src, c.opts(opt))
+		res := CompileMaybeLM(src, c.opts(opt))
 		if !res.OK() {
 			if res.Panic != nil || res.Budget {
 				return viol("crash", "opt=%v %s\n--- source\n%s", opt, res.Describe(), src)
